@@ -318,6 +318,50 @@ fn unknown_admin_probe(rep: &mut Report, u: &mut U, label: &str, dir: &str, know
         rep.violation(&format!("roles-changed-by-a-stranger-through-an-unknown-entry-point:{}", label), format!("after a stranger's call of {} the roles of {} read {} (were {})", name, label, after, before));
     }
     u.restore(&ck);
+    // The same entry points used by the role holders themselves (everybody asked signs), followed by
+    // an ordinary hand-over of every role to a newcomer: whatever the first call set in motion, the
+    // newcomer never authorised anything, so no stranger's call may change who holds which role
+    // afterwards. Judged per accepted first call, since later ones may overwrite its effect.
+    let newcomer = u.principal();
+    for name in &names {
+        for t in &tuples {
+            let ck1 = u.checkpoint();
+            if u.try_unknown(addr, std::slice::from_ref(name), std::slice::from_ref(t), &Auth::AsRecorded) > 0 {
+                rep.count("note:unknown-entry-point-accepted-a-role-holder's-call");
+                let (a, n) = (addr.clone(), newcomer.clone());
+                u.setup(move |env| {
+                    let _ = OwnableClient::new(env, &a).try_transfer_ownership(&n);
+                    let _ = OperatableClient::new(env, &a).try_transfer_operatorship(&n);
+                });
+                u.skip_events();
+                let handed = roles(u);
+                let mut changed: Option<(String, String)> = None;
+                'later: for auth in [Auth::AllBy(stranger.clone()), Auth::Nobody] {
+                    for name2 in &names {
+                        for t2 in &tuples {
+                            if u.try_unknown(addr, std::slice::from_ref(name2), std::slice::from_ref(t2), &auth) > 0 {
+                                let after = roles(u);
+                                if after != handed {
+                                    changed = Some((format!("{} after the holder's {}", name2, name), after));
+                                    break 'later;
+                                }
+                            }
+                        }
+                    }
+                }
+                rep.eval(&format!("{}.unknown-entry-points-after-hand-over", label), &format!("{}|unknown-after-hand-over|{}", label, changed.is_none()), true);
+                if let Some((what, after)) = changed {
+                    rep.step(format!("roles after the hand-over: {} / after the stranger's call: {}", handed, after));
+                    rep.violation(&format!("roles-changed-by-a-stranger-after-a-hand-over-through-an-unknown-entry-point:{}", label), format!("a stranger's call of {} changed the roles of {} to {} (were {}); the holders after the hand-over authorised nothing", what, label, after, handed));
+                    u.restore(&ck1);
+                    u.restore(&ck);
+                    return;
+                }
+            }
+            u.restore(&ck1);
+        }
+    }
+    u.restore(&ck);
 }
 
 pub fn run(ctx: &Ctx, rep: &mut Report) {
